@@ -1722,7 +1722,11 @@ class LeCreditBasedChannel(utils.EventEmitter):
         self.send_control_frame(request)
 
         # Wait for the connection to succeed or fail
-        return await connection_result
+        try:
+            return await connection_result
+        finally:
+            # No longer pending (a no-op unless the caller gave up before the response)
+            self.manager.le_coc_requests.pop((self.connection.handle, identifier), None)
 
     async def disconnect(self) -> None:
         # Check that we're connected
@@ -2977,9 +2981,11 @@ class ChannelManager:
         # Connect
         try:
             await channel.connect()
-        except Exception:
-            logger.exception('connection failed')
-            del connection_channels[source_cid]
+        except BaseException as error:
+            # (BaseException: the caller may also give up, by cancelling us)
+            if isinstance(error, Exception):
+                logger.exception('connection failed')
+            connection_channels.pop(source_cid, None)
             raise
 
         # Remember the channel by source CID and destination CID
